@@ -71,7 +71,7 @@ Inductive kctl :=
 | KWaitReply (id dl : N)      (* inside sendRequest's select; dl = deadline of the ping context *)
 | KWaitTick                   (* select { <-ticker.C ; <-c.ctx.Done() } *)
 | KDone                       (* keepAliveLoop returned *)
-| KPanicked.                  (* the goroutine panicked (NewTicker(<=0); the Pong type assertion) *)
+| KPanicked.                  (* the goroutine panicked (NewTicker with a non-positive interval) *)
 
 Inductive waiter := WPing | WApp.   (* who waits on a replyCh entry *)
 
@@ -148,7 +148,10 @@ Definition on_response (TO : N) (s : kst) (id : N) (pong : bool) : kst * list ko
           | KWaitReply id' _ =>
               if id' =? id then
                 if pong then after_reply TO s1
-                else (set_ctl s1 KPanicked, [OPanic])        (* the Pong type assertion *)
+                else (* typedResponse[*Pong] fails: sendPing returns an error, c.ctx is not done:
+                        "Ping timeout, disconnect", c.Close() *)
+                  (mkK (k_now s) KDone (k_tick_next s) (k_tick_buf s) (k_nextid s)
+                       (remove id (k_replies s)) true (k_link s), [OClose])
               else (s1, [])
           | _ => (s1, [])
           end
